@@ -170,6 +170,115 @@ pub fn record_sat(args: &Args) {
     out.flush();
 }
 
+/// spec -> impl: replay the decide / pop behaviours enumerated by spec/GenWatched.tla into the real SATSolver
+/// and record what it does in the TraceUnitProp format (TLC then validates that record)
+pub fn replay_satvec(args: &Args) {
+    let text = std::fs::read_to_string(args.str("in", "")).expect("read vectors");
+    let chunks = args.num("chunks", 1) as usize;
+    let base = args.str("out", "/tmp/satvec");
+    let lines: Vec<&str> = text.lines().collect();
+    let per = (lines.len() + chunks - 1) / chunks.max(1);
+    let mut total = 0usize;
+    for (ci, chunk) in lines.chunks(per.max(1)).enumerate() {
+        let mut out = Out::new(&format!("{base}_{ci}.ndjson"));
+        out.emit(json!({"ev": "init", "kind": "sat", "nmax": args.num("nv", 3), "seed": 0}));
+        for line in chunk {
+            let v: Value = serde_json::from_str(line).expect("vector json");
+            total += 1;
+            let c: Vec<Vec<(usize, bool)>> = v["cnf"]
+                .as_array()
+                .unwrap()
+                .iter()
+                .map(|cl| cl.as_array().unwrap().iter().map(|l| { let x = l.as_i64().unwrap(); ((x.abs() - 1) as usize, x > 0) }).collect())
+                .collect();
+            let nvv = v["nv"].as_u64().unwrap() as usize;
+            // pad so that num_vars equals the model's NV (a tautology-free way is not needed: the solver takes nv from the CNF)
+            let cnf = mk_cnf(&c);
+            let nv = cnf.num_vars();
+            let mut ev = json!({"ev": "snew", "nv": nv, "cnf": stored_json(&cnf), "model_nv": nvv});
+            let solver = match guarded(|| SATSolver::new(cnf.clone())) {
+                Ok(s) => s,
+                Err(m) => {
+                    ev["panic"] = json!(m);
+                    out.emit(ev);
+                    continue;
+                }
+            };
+            let mut s = match solver {
+                None => {
+                    ev["ok"] = json!(false);
+                    out.emit(ev);
+                    continue;
+                }
+                Some(s) => s,
+            };
+            ev["ok"] = json!(true);
+            observe(&s, nv, &mut ev);
+            out.emit(ev);
+            let mut depth = 2usize;
+            for op in v["ops"].as_array().unwrap() {
+                if op["op"] == "p" {
+                    if depth <= 2 {
+                        break;
+                    }
+                    let mut ev = json!({"ev": "pop"});
+                    if let Err(m) = guarded(|| s.pop()) {
+                        ev["panic"] = json!(m);
+                        out.emit(ev);
+                        break;
+                    }
+                    depth -= 1;
+                    observe(&s, nv, &mut ev);
+                    let dead = ev.get("panic").is_some();
+                    out.emit(ev);
+                    if dead {
+                        break;
+                    }
+                } else {
+                    let lit = op["lit"].as_i64().unwrap();
+                    if (lit.unsigned_abs() as usize) > nv {
+                        break; // the CNF does not mention this variable: outside the solver's domain
+                    }
+                    let mut ev = json!({"ev": "decide", "lit": lit});
+                    match guarded(|| s.decide(Literal::new(VarLabel::new_usize((lit.abs() - 1) as usize), lit > 0))) {
+                        Ok(r) => {
+                            ev["res"] = json!(match r {
+                                DecisionResult::SAT => "SAT",
+                                DecisionResult::UNSAT => "UNSAT",
+                                DecisionResult::Unknown => "Unknown",
+                            });
+                            if !matches!(r, DecisionResult::UNSAT) {
+                                depth += 1;
+                                match guarded(|| {
+                                    s.difference_iter()
+                                        .map(|l| if l.polarity() { l.label().value() as i64 + 1 } else { -(l.label().value() as i64 + 1) })
+                                        .collect::<Vec<_>>()
+                                }) {
+                                    Ok(d) => ev["diff"] = json!(d),
+                                    Err(m) => ev["panic"] = json!(format!("difference_iter: {m}")),
+                                }
+                            }
+                            observe(&s, nv, &mut ev);
+                            let dead = ev.get("panic").is_some();
+                            out.emit(ev);
+                            if dead {
+                                break;
+                            }
+                        }
+                        Err(m) => {
+                            ev["panic"] = json!(m);
+                            out.emit(ev);
+                            break;
+                        }
+                    }
+                }
+            }
+        }
+        out.flush();
+    }
+    println!("{}", json!({"vectors": total, "chunks": chunks}));
+}
+
 // ------------------------------------------------------------------ top-down compilation (C06)
 
 fn td_segment<'a, B: DecisionNNFBuilder<'a>>(b: &'a B, cnfs: &[Cnf], nv: usize, rng: &mut Rng, out: &mut Out) {
